@@ -143,6 +143,24 @@ Proof. destruct f; [discriminate|]. cbn [eval eval_body]. intros H. inversion H.
 Lemma eval_var f ge x st v s : eval f ge (EVar x) st = Ret v s -> read_var ge x st = Ret v s.
 Proof. destruct f; [discriminate|]. cbn [eval eval_body]. trivial. Qed.
 
+(* a subscript: the array is resolved (no change of state), the index evaluated, the element read *)
+Lemma resolve_array_state ge a st av s0 : resolve_array ge a st = Ret av s0 -> s0 = st.
+Proof.
+  unfold resolve_array. intros H.
+  destruct (assoc a (f_vars (top st))) as [[| | |]|]; try discriminate; try (inversion H; reflexivity).
+  destruct (assoc a (f_vals (top st))); [discriminate|]. destruct (assoc a (garrs st)); [inversion H; reflexivity | discriminate].
+Qed.
+Lemma eval_sub f ge a i st v s :
+  eval f ge (ESub a i) st = Ret v s ->
+  exists f1 av n s1, resolve_array ge a st = Ret av st /\ eval f1 ge i st = Ret (Vint n) s1 /\ read_elem av a n s1 = Ret v s.
+Proof.
+  destruct f as [|f0]; [discriminate|]. cbn [eval eval_body]. intros H.
+  apply bind_ret in H. destruct H as (av & s0 & H0 & H). pose proof (resolve_array_state _ _ _ _ _ H0) as ->.
+  apply bind_ret in H. destruct H as (iv & s1 & H1 & H).
+  unfold int_of in H. destruct iv as [|n| |]; try discriminate.
+  exists f0, av, n, s1. split; [exact H0|]. split; [exact H1 | exact H].
+Qed.
+
 Lemma signed32_range n : in_int (signed32 n) = true.
 Proof.
   unfold signed32, in_int, min_int, max_int. pose proof (Z.mod_pos_bound n 4294967296 ltac:(lia)) as H.
@@ -211,6 +229,7 @@ Qed.
 Fixpoint pure (e : expr) : bool :=
   match e with
   | ENum _ => true | EBool _ => true | EVar _ => true
+  | ESub _ i => pure i
   | EUn _ a => pure a
   | EBin _ l r => pure l && pure r
   | _ => false
@@ -230,12 +249,22 @@ Qed.
 
 Lemma pure_no_halt ge : forall e, pure e = true -> forall f st c s, eval f ge e st <> Halt c s.
 Proof.
-  induction e as [n0|b0|bs|x|a i|g args|n0 args|u e IHe|o l IHl rr IHr]; intros Hp f st c s H; cbn [pure] in Hp; try discriminate;
+  induction e as [n0|b0|bs|x|a i IHi|g args|n0 args|u e IHe|o l IHl rr IHr]; intros Hp f st c s H; cbn [pure] in Hp; try discriminate;
     destruct f as [|f0]; try discriminate; cbn [eval eval_body] in H; try discriminate.
   - unfold read_var in H.
     destruct (assoc x (f_vars (top st))) as [[| | |]|]; try discriminate.
     destruct (assoc x (f_vals (top st))); [discriminate|]. destruct (assoc x (g_vals ge)); [discriminate|].
     destruct (assoc x (gvars st)) as [[| | |]|]; try discriminate. destruct (assoc x (garrs st)); discriminate.
+  - (* subscript *)
+    apply bind_halt in H. destruct H as [H|(av & s0 & H0 & H)].
+    { unfold resolve_array in H. destruct (assoc a (f_vars (top st))) as [[| | |]|]; try discriminate.
+      destruct (assoc a (f_vals (top st))); [discriminate|]. destruct (assoc a (garrs st)); discriminate. }
+    apply bind_halt in H. destruct H as [H|(iv & s1 & _ & H)]; [exact (IHi Hp _ _ _ _ H)|].
+    apply int_of_halt in H. destruct H as (n & H). unfold read_elem in H.
+    destruct av as [| |g|ws]; try discriminate.
+    + destruct (assoc g (garrs s1)) as [ar|]; [|discriminate]. destruct ((0 <=? n) && (n <? alen ar)); [|discriminate].
+      destruct (FMapPositive.PositiveMap.find (cell n) (acells ar)) as [[| | |]|]; discriminate.
+    + destruct ((0 <=? n) && (n <? Z.of_nat (List.length ws))); discriminate.
   - destruct u.
     + apply bind_halt in H. destruct H as [H|(v & s1 & _ & H)]; [exact (IHe Hp _ _ _ _ H)|].
       apply int_of_halt in H. destruct H as (n & H). destruct (in_int (0 - n)); discriminate.
